@@ -1,9 +1,10 @@
 (* C05 - Client: every operation completes exactly once under cancel, Close and failure.
    Property theorems only; every proof is `exact <lemma>` (lemmas in coq/cli/CliC05.v, CliProofs.v, CliLive.v,
-   CliHist.v, CliWg.v; invariants in coq/cli/CliInv.v, CliRet.v, CliCtx.v, CliOps.v, CliHist.v, CliWg.v). *)
+   CliHist.v, CliWg.v, CliStop.v; invariants in coq/cli/CliInv.v, CliRet.v, CliCtx.v, CliOps.v, CliHist.v, CliWg.v,
+   CliStop.v). *)
 From Coq Require Import List NArith ZArith Bool Arith.
 From RecordUpdate Require Import RecordUpdate.
-From JV Require Import Bytes Msg CliModel CliLemmas CliInv CliRet CliProofs CliC05 CliCtx CliOps CliHist CliLive CliWg.
+From JV Require Import Bytes Msg CliModel CliLemmas CliInv CliRet CliProofs CliC05 CliCtx CliOps CliHist CliLive CliWg CliSend CliStep CliStop.
 Import ListNotations.
 
 (* EXACTLY ONE RETURN (full statement).  In every history of every schedule each operation (Call, Batch, Notify,
@@ -99,3 +100,28 @@ Theorem c05_after_stop : forall s n c s', err s = Some c -> step_raw s (LRelSend
   hist s' = hist s ++ [ORet n (RetFail (EStopped c))] /\ pending s' = pending s /\ slots s' = slots s.
 Proof. exact send_after_stop. Qed.
 Print Assumptions c05_after_stop.
+
+(* THE FIRST STOP CAUSE WINS.  Once c.err is set no step of any kind changes it (one step; any continuation of
+   the trace), and stopLocked closed the channel exactly if the client has stopped: [closes s] is 1 once stopped and 0
+   before - never more than one Close of the channel. *)
+Theorem c05_err_stable : forall c tr s, traces_to c tr s ->
+  (forall l s' os c0, step s l = Some (s', os) -> err s = Some c0 -> err s' = Some c0)
+  /\ (forall tr2 s2 c0, traces_to c (tr ++ tr2) s2 -> err s = Some c0 -> err s2 = Some c0)
+  /\ closes s = (if is_some (err s) then 1 else 0) /\ closes s <= 1.
+Proof. exact err_stable. Qed.
+Print Assumptions c05_err_stable.
+
+(* ONSTOP RUNS EXACTLY ONCE PER CLIENT, WITH THE FIRST STOP CAUSE (every trace).  [onstop_count h]: number of OnStop
+   observations in h.  It is at most 1; it is 1 exactly when the client has stopped and no Close whose stopLocked
+   recorded the cause is still in done.Wait() ([stopper_waiting]: pc = PCloseWait true; in Go OnStop runs in the
+   goroutine that stopped the client - the reader right after stopLocked, a Close after done.Wait() returned); such a
+   waiting Close means the cause is errClientStopped and OnStop has not run yet; once the reader stopped the client
+   or the stopping Close has returned OnStop has run; and its argument is the recorded (first, c05_err_stable) cause. *)
+Theorem c05_onstop_once : forall c tr s, traces_to c tr s ->
+  onstop_count (hist s) <= 1
+  /\ onstop_count (hist s) + cnt stopper_waiting (ops s) = (if is_some (err s) then 1 else 0)
+  /\ (forall n o, op_at s n = Some o -> o_pc o = PCloseWait true -> err s = Some SCClosed /\ onstop_count (hist s) = 0)
+  /\ (err s <> None -> (forall n o, op_at s n = Some o -> o_pc o <> PCloseWait true) -> onstop_count (hist s) = 1)
+  /\ (forall c0, In (OOnStop c0) (hist s) -> err s = Some c0).
+Proof. exact onstop_once. Qed.
+Print Assumptions c05_onstop_once.
